@@ -553,6 +553,8 @@ def render_descriptor(r):
     d = r["desc"]
     q = lambda k, v: f'{k}{d["eq"]}"{v}"'   # noqa: E731
     hint = [q("parentFileNameHint", d["parent_hint"])] if d.get("parent_hint") is not None else []
+    if d.get("hint_line") is not None:          # the line as written (unquoted / empty / blank values), see gen_delta_link
+        hint = [d["hint_line"]]
     lines = ["# Disk DescriptorFile", "version=1"] + [q(k, v) for k, v in d["extra_attr"]] + [f'CID{d["eq"]}{d["cid"]}', f'parentCID{d["eq"]}{d.get("parent_cid", "ffffffff")}',
              q("createType", d["createType"])] + hint + ["", "# Extent description"] + [d["indent"] + extent_line(e) for e in r["extents"]] + \
             ["", "# The Disk Data Base", "#DDB", ""] + [d["indent"] + f'{k} = "{v}"' for k, v in d["ddb"]]
@@ -643,6 +645,49 @@ def gen_delta(rng, tier, n=None, where=None, base_kinds=None):
     return {"base": base, "where": where, "child": {"mode": "descriptor", "extents": exts, "desc": desc, "named": True, "open_as": "path", "info": {}}}
 
 
+# how the child's link to its parent is written (gen_delta_link).  hint: the parentFileNameHint line; None = no such line, otherwise
+# the text after `parentFileNameHint=` ({} = the parent's name).  A link whose hint names nothing designates no parent: E.
+LINK_HINTS = {"ok": '"{}"', "absent": None, "empty": '""', "empty_bare": "", "blank": '"   "', "blank_bare": "   ", "tab": '"\t"', "quote_only": '"'}
+# parentCID as written, from the parent's CID (8 lower-case hex digits, leading zeros, at least one letter)
+LINK_CIDS = {"exact": lambda c: c, "upper": lambda c: c.upper(), "short": lambda c: c.lstrip("0"), "short_upper": lambda c: c.lstrip("0").upper(),
+             "mixed": lambda c: "".join(ch.upper() if i % 2 else ch for i, ch in enumerate(c))}
+
+
+def gen_delta_link(rng, tier, embedded, hint, cid, where="same"):
+    """a delta disk whose LINK to the parent is the subject: the parent (present, in the child's or a sibling directory) is a
+    descriptor disk, the child either a text descriptor over 1..2 sparse extents or one hosted sparse extent with an embedded
+    descriptor (monolithicSparse, opened by its path).  hint / cid: keys of LINK_HINTS / LINK_CIDS.  r["link"]["expect"] is
+    "overlay" when the hint names the parent, "E" when it names nothing (no line, empty / blank value)."""
+    r = gen_delta(rng, tier, n=1 if embedded else rng.choice([1, 2]), where=where)
+    base, child = r["base"], r["child"]
+    low = "%05x" % rng.getrandbits(20)
+    k = rng.randrange(5)
+    bcid = "000" + low[:k] + rng.choice("abcdef") + low[k + 1:]
+    base["desc"]["cid"] = bcid
+    pcid = LINK_CIDS[cid](bcid)
+    nm = base["desc"]["name"]
+    val = LINK_HINTS[hint]
+    hint_line = None if val is None else "parentFileNameHint=" + val.format(HINTS[where].format(nm))
+    if not embedded:
+        d = child["desc"]
+        d["parent_cid"], d["parent_hint"], d["hint_line"] = pcid, None, hint_line
+    else:
+        cap = child["extents"][0]["sectors"]
+        lines = ["# Disk DescriptorFile", "version=1", "CID=%08x" % rng.getrandbits(32), "parentCID=" + pcid, 'createType="monolithicSparse"'] + \
+                ([hint_line] if hint_line is not None else []) + ["", "# Extent description", 'RW %d SPARSE "child.vmdk"' % cap, "",
+                                                                 "# The Disk Data Base", "#DDB", "", 'ddb.virtualHWVersion = "13"', ""]
+        text = "\n".join(lines)
+        while True:
+            rec = gen_extent(rng, tier, kind=rng.choice(["kdmv", "kdmv", "kdmv_footer", "kdmv_stream"]), capacity=cap, huge=False)
+            if rec["desc"] and len(text.encode()) <= rec["desc"][1] * SEC and rec["cap"] == cap:
+                break
+        rec["desc"][2] = text
+        e = {"rec": rec, "sectors": cap, "name": "child.vmdk", "access": "RW", "type": "SPARSE", "start": None, "opt": []}
+        r["child"] = {"mode": "handles", "extents": [e], "desc": None, "named": True, "open_as": "single", "info": {}}
+    r["link"] = {"embedded": embedded, "hint": hint, "cid": cid, "expect": "overlay" if hint == "ok" else "E"}
+    return r
+
+
 def _prefix(xs):
     out, a = [], 0
     for x in xs:
@@ -705,7 +750,7 @@ class DeltaTruth:
                 im.write_to(os.path.join(bdir, name))
         for name, im in self.child.files.items():
             im.write_to(os.path.join(cdir, name))
-        return os.path.join(cdir, self.child.descriptor_name)
+        return os.path.join(cdir, self.child.descriptor_name or self.child.order[0])      # embedded descriptor: the extent itself
 
 
 # ------------------------------------------------------------------------------------------ real code
